@@ -98,7 +98,7 @@ func (l *unixListener) Accept() (net.Conn, error) {
 // Close closes the listener.
 func (l *unixListener) Close() error {
 	// this also closes the listener.
-	l.conn.forwards.remove("unix", l.socketPath)
+	l.conn.forwards.remove("unix", l.socketPath, l.in)
 	m := streamLocalChannelForwardMsg{
 		l.socketPath,
 	}
